@@ -94,6 +94,20 @@ CLAIMS = {
              "forecasters, recording metric) reported separately",
         technique="contract-based deductive verification: AST->VC generation (pyvc) + z3/cvc5; loop invariant + per-iteration ghost-event schema",
         design="6/C07"),
+    "C08": dict(
+        category="proof",
+        text="BaseGridSearch.fit is verified with the base forecaster and the metric abstract, evaluate() entering through its C07 "
+             "contract and a symbolic candidate list: every candidate is evaluated exactly once on a fresh clone configured with exactly "
+             "its parameters, on the same splitter / data / strategy / metric; row j of cv_results_ is the column mean of that evaluate "
+             "table with that candidate's parameters; best_index_ minimises the mean score for losses and maximises it when "
+             "greater_is_better; best_score_/best_params_ belong to that candidate; best_forecaster_ is a fresh clone with the best "
+             "parameters, fitted on the whole series iff refit. predict/update/cutoff forward unchanged to the best forecaster and "
+             "raise NotFittedError before fit or with refit=False; the metric wrapper returns the function value un-negated.",
+        note="1..3 candidates (bound on the number of candidates only); ParameterGrid/ParameterSampler enumeration, Series.rank, argmin, "
+             "DataFrame.mean/filter are library models (assumed); joblib results in submission order (assumed); equality with an "
+             "independent evaluate run is bounded-tier only",
+        technique="contract-based deductive verification: AST->VC generation (pyvc) + z3; modular use of the evaluate contract, ghost trace",
+        design="6/C08"),
     "C09": dict(
         category="proof",
         text="fit/_predict/update of TransformedTargetForecaster, EnsembleForecaster, MultiplexForecaster and StackingForecaster.fit "
